@@ -1,7 +1,7 @@
 META = {
     "level": "model_checking",
     "technique": "TLA+ model of one direction of the binary packet protocol (PacketLayer.tla: send_message, fragmented arrival, read_message, key switch, per-epoch compression stream) model-checked by TLC; TLC-generated behaviours replayed on two real Packetizers keyed through the real _activate_outbound/_activate_inbound for every cipher x MAC x compression; seeded long streams validated against the spec by TLC",
-    "text": "TLC checks on the model that the receiver stays positioned where the head packet was sealed (keys, sequence number, compression stream) and delivers exactly the sent sequence, for all interleavings of sends, key switches, fragment arrivals and reads, with mutated models (stale inflater/deflater after a key switch) shown to break it; TLC-simulated behaviours (length classes, fragment splits, key switches) are executed on real Packetizer pairs for all 216 suites and compared read by read; random streams of 1-200 messages up to 70000 bytes with random read fragmentation, socket timeouts and 0-3 key switches are logged and checked event by event by the trace spec",
+    "text": "TLC checks on the model that the receiver stays positioned where the head packet was sealed (keys, sequence number, compression stream) and delivers exactly the sent sequence, for all interleavings of sends, key switches, fragment arrivals and reads, also with the receiver explored inside read_all while need_rekey is up (NeedRekeyException may only fire with nothing of the next packet consumed), with mutated models (stale inflater/deflater after a key switch, NeedRekeyException with a partly consumed header) shown to break it; TLC-simulated behaviours (length classes, fragment splits, key switches) are executed on real Packetizer pairs for all 216 suites and compared read by read; random streams of 1-200 messages up to 70000 bytes with random read fragmentation, socket timeouts and 0-3 key switches are logged and checked event by event by the trace spec",
     "note": "trusted: TLC, the in-memory socket (harness/drivers/packet.py Wire), the harness stand-in for the key exchange result (K, H set directly; NEWKEYS handled like _parse_newkeys), message identification by byte equality; MAC/cipher primitives are the real ones, their cryptographic strength is not claimed",
 }
 import random
@@ -10,9 +10,11 @@ from harness.core import cfg_text, Machinery, run_tlc
 from harness.drivers import packet as P
 
 BASE = {"SeqMod": 4, "MaxSwitch": 2, "MaxTamper": 0, "MaxChunk": 5, "Stricts": "@{TRUE, FALSE}",
-        "Zlibs": "@{TRUE, FALSE}", "Mutations": set()}
+        "Zlibs": "@{TRUE, FALSE}", "Mutations": set(), "Modes": {"classic"}, "Partial": False}
+ALL_MODES = {"classic", "etm", "aead"}
 INV = ["TypeOK", "PrefixOnly", "NoAlien", "AllDelivered", "NeverFailsHonest", "SyncHonest", "Caught"]
-MUTANTS = {"zin", "zout"}        # stale inflater / deflater after a key switch
+# stale inflater / deflater after a key switch; NeedRekeyException raised with part of a header already consumed
+MUTANTS = {"zin", "zout", "rekeydrop"}
 LEN_CLASSES = {"one", "bm1", "b", "bp1", "mid", "big"}
 
 
@@ -46,24 +48,25 @@ def cell_cuts(start, end, bsize, rnd):
 
 
 def generate_behaviours(c, n, nmsgs, depth):
-    consts = dict(BASE, NMsgs=nmsgs, SeqMod=1000, MaxChunk=6, LenClasses=LEN_CLASSES)
+    consts = dict(BASE, NMsgs=nmsgs, SeqMod=1000, MaxChunk=6, LenClasses=LEN_CLASSES, Modes=ALL_MODES, Partial=True)
     r = run_tlc("PacketLayer_Gen", cfg_text(spec="GSpec", constants=consts, invariants=["EmitBeh"]),
                 c.work / "gen", workers=1, simulate="num=%d" % n, extra=["-depth", str(depth), "-seed", str(c.seed + 1)])
     if "traces generated" not in r.out or r.violated:
         raise Machinery("behaviour generation failed: %s\n%s" % (r.violated, r.out[-2000:]))
     seen, out = set(), []
-    for _, strict, zl, hist, delivered in r.printed("BEH"):
-        k = repr((strict, zl, hist))
+    for _, strict, zl, mode0, hist, delivered in r.printed("BEH"):
+        k = repr((strict, zl, mode0, hist))
         if k not in seen:
             seen.add(k)
-            out.append({"strict": strict, "zlib": zl, "hist": [(a, b) for a, b in hist], "delivered": delivered})
+            out.append({"strict": strict, "zlib": zl, "mode0": mode0, "hist": [(a, b) for a, b in hist], "delivered": delivered})
     c.mc_runs.append({"module": "PacketLayer_Gen", "name": "simulate", "distinct": len(out), "generated": r.generated or len(out),
                       "depth": depth, "wall_s": round(r.wall, 1), "expect": "behaviours", "violated": []})
     return out
 
 
 def replay(c, beh, suite, rnd):
-    """spec -> code: run one TLC behaviour on a real sender/receiver pair; True if it agreed with the spec"""
+    """spec -> code: run one TLC behaviour on a real sender/receiver pair; returns the number of NeedRekeyExceptions
+    the read loop saw if the run agreed with the spec, False otherwise"""
     info = P.suite_info(suite)
     try:
         L = P.Link(suite, rnd, strict=beh["strict"])
@@ -79,6 +82,7 @@ def replay(c, beh, suite, rnd):
     got = []
     sig = []
     nread = 0
+    same_comp = [x for x in P.suites() if x[2] == suite[2]]
     for act, arg in beh["hist"]:
         if act == "Send":
             n = render_len(arg, info["bsize"], rnd)
@@ -89,10 +93,18 @@ def replay(c, beh, suite, rnd):
             cells += cell_cuts(start, len(L.wire.data), info["bsize"], rnd)
             sig.append("S%d" % n)
         elif act == "Switch":
+            # the key exchange agreed on algorithms of framing mode `arg` (compression stays what it is)
+            new = rnd.choice([x for x in same_comp if P.mode_of(x) == arg])
             start = len(L.wire.data)
-            L.tx.switch(P.fresh_secret(rnd))
-            cells += cell_cuts(start, len(L.wire.data), info["bsize"], rnd)
-            sig.append("K")
+            L.tx.switch(P.fresh_secret(rnd), suite=new)
+            cells += cell_cuts(start, len(L.wire.data), info["bsize"], rnd)     # (still framed by the old epoch's cipher)
+            info = P.suite_info(new)
+            sig.append("K:" + arg)
+        elif act == "Need":
+            # from here on the receiving Packetizer wants a re-key: an idle socket timeout makes read_message raise
+            # NeedRekeyException (the read loop of Transport.run just calls it again)
+            L.rx.raise_need_rekey()
+            sig.append("N")
         elif act == "Arrive":
             arrived_cells += int(arg)
             if arrived_cells > len(cells):
@@ -135,8 +147,9 @@ def replay(c, beh, suite, rnd):
         return False
     c.case(key=("rp", suite, " ".join(sig)),
            sample=None if len(c.samples) >= 3 else {"stage": "replay", "suite": "/".join(suite), "strict": beh["strict"], "steps": " ".join(sig),
-                   "socket_timeouts": L.wire.timeouts, "recv_calls": L.wire.recvs})
-    return True
+                   "socket_timeouts": L.wire.timeouts, "recv_calls": L.wire.recvs,
+                   "need_rekey_exceptions": L.rx.need_rekey_exceptions})
+    return L.rx.need_rekey_exceptions
 
 
 def random_length(rnd, bsize):
@@ -151,7 +164,7 @@ def random_length(rnd, bsize):
     return rnd.choice([32768, 65535, 65536, 69999, 70000, rnd.randint(20000, 70000)])
 
 
-def record_stream(c, suite, rnd, nmsgs, nswitch, strict):
+def record_stream(c, suite, rnd, nmsgs, nswitch, strict, need=False):
     """code -> spec: one seeded stream; returns the event list"""
     info = P.suite_info(suite)
     try:
@@ -163,6 +176,10 @@ def record_stream(c, suite, rnd, nmsgs, nswitch, strict):
                     "NEWKEYS (%s, strict=%s)" % (type(e).__name__, e, "/".join(suite), strict), {"suite": suite})
         return None
     L.wire.mode = "rand"
+    if need:
+        # the receiver is where a transport is between its KEXINIT and the peer's NEWKEYS: need_rekey() is up, so a
+        # socket timeout before the first byte of a packet raises NeedRekeyException (and only then)
+        L.rx.raise_need_rekey()
     led = P.Ledger()
     ev = []
     base = L.seq_base
@@ -201,13 +218,13 @@ def record_stream(c, suite, rnd, nmsgs, nswitch, strict):
         if dead:
             break
         if k in switch_at:
-            ev.append({"a": "Switch", "i": 0, "r": "", "got": 0, "seq": rel(L.tx.seq)})
             # a key exchange may agree on other algorithms (compression stays as it is)
             new = rnd.choice(same_comp) if rnd.random() < 0.4 else None
-            L.tx.switch(P.fresh_secret(rnd), suite=new)
             if new is not None:
                 algos.append("/".join(new))
                 info = P.suite_info(new)
+            ev.append({"a": "Switch", "i": 0, "r": info["mode"], "got": 0, "seq": rel(L.tx.seq)})
+            L.tx.switch(P.fresh_secret(rnd), suite=new)
             pending += 1
         if k == nmsgs:
             break
@@ -224,8 +241,8 @@ def record_stream(c, suite, rnd, nmsgs, nswitch, strict):
     if L.wire.readable() and not dead:
         ev.append({"a": "Fail", "i": 0, "r": "LeftoverBytes", "got": 0, "seq": -1})
     ev.append({"a": "End", "i": 0, "r": "", "got": 0, "seq": -1})
-    return {"strict": strict, "zlib": zl, "ev": ev,
-            "meta": {"suite": "/".join(suite), "algorithms": algos, "messages": nmsgs, "switches": len(switch_at), "max_len": maxlen,
+    return {"strict": strict, "zlib": zl, "mode0": P.mode_of(suite), "ev": ev,
+            "meta": {"need_rekey_raised": need, "need_rekey_exceptions": L.rx.need_rekey_exceptions, "suite": "/".join(suite), "algorithms": algos, "messages": nmsgs, "switches": len(switch_at), "max_len": maxlen,
                      "recv_calls": L.wire.recvs, "socket_timeouts": L.wire.timeouts}}
 
 
@@ -236,8 +253,14 @@ def run(c):
     # for the code as it is, and each defect must be noticed by one of them (they are not vacuous)
     nm = 3 if c.quick else 5
     c.mc_holds("PacketLayer", cfg_text(constants=dict(BASE, NMsgs=nm), invariants=INV, properties=["StopsAtFirstBad"]), name="honest network")
-    r = c.mc_holds("PacketLayer", cfg_text(constants=dict(BASE, NMsgs=2, MaxChunk=4, Mutations=MUTANTS), invariants=INV),
-                   name="seeded defects %s" % sorted(MUTANTS), workers=1)
+    if not c.quick:
+        # the receiver explored inside read_all (header consumed in pieces, socket timeouts, need_rekey raised at any moment)
+        # and key epochs that change the framing mode
+        c.mc_holds("PacketLayer", cfg_text(constants=dict(BASE, NMsgs=3, Partial=True, Modes={"classic", "etm"}), invariants=INV,
+                                           properties=["StopsAtFirstBad"]),
+                   name="honest network, inside read_all, need_rekey, modes classic/etm", timeout=1500)
+    r = c.mc_holds("PacketLayer", cfg_text(constants=dict(BASE, NMsgs=2, MaxSwitch=1, MaxChunk=4, Partial=True, Mutations=MUTANTS), invariants=INV),
+                   name="inside read_all with need_rekey + seeded defects %s" % sorted(MUTANTS), workers=1)
     caught = {x[1] for x in r.printed("CAUGHT")}
     if caught != MUTANTS:
         raise Machinery("seeded defects not all noticed by the model's properties: %s of %s" % (sorted(caught), sorted(MUTANTS)))
@@ -245,18 +268,20 @@ def run(c):
     # ---- RP: spec -> code on every suite
     per_suite = 3 if c.quick else 40
     behs = generate_behaviours(c, 150 if c.quick else 1500, 4, 44)
-    pools = {True: [b for b in behs if b["zlib"]], False: [b for b in behs if not b["zlib"]]}
-    if min(len(pools[True]), len(pools[False])) < per_suite:
-        raise Machinery("too few behaviours generated: %d / %d" % (len(pools[True]), len(pools[False])))
-    if not any(a == "Switch" for b in behs for a, _ in b["hist"]):
-        raise Machinery("no generated behaviour has a key switch")
+    pools = {}
+    for b in behs:
+        pools.setdefault((b["zlib"], b["mode0"]), []).append(b)
+    if len(pools) < 6 or min(len(v) for v in pools.values()) < min(per_suite, 8):
+        raise Machinery("too few behaviours generated: %s" % {k: len(v) for k, v in pools.items()})
+    if not any(a == "Switch" for b in behs for a, _ in b["hist"]) or not any(a == "Need" for b in behs for a, _ in b["hist"]):
+        raise Machinery("no generated behaviour has a key switch / raises need_rekey")
     suites = P.suites()
-    nrp = 0
+    nrp = n_exc = 0
     for si, suite in enumerate(suites):
-        pool = pools[P.suite_info(suite)["zlib"]]
+        pool = pools[(P.suite_info(suite)["zlib"], P.mode_of(suite))]
         for j in range(per_suite):
             beh = pool[(si * per_suite + j) % len(pool)]
-            replay(c, beh, suite, rnd)
+            n_exc += replay(c, beh, suite, rnd) or 0
             nrp += 1
     c.traces += nrp
 
@@ -269,14 +294,15 @@ def run(c):
         suite = suites[order[k % len(order)]]
         big = rnd.random() < (0.15 if c.quick else 0.3)
         nmsgs = rnd.randint(60, 200) if big else rnd.randint(1, 40)
-        t = record_stream(c, suite, rnd, nmsgs, rnd.randint(0, 3), rnd.random() < 0.5)
+        t = record_stream(c, suite, rnd, nmsgs, rnd.randint(0, 3), rnd.random() < 0.5, need=rnd.random() < 0.5)
         if t is not None:
             batch.append(t)
-    tv_consts = dict(BASE, NMsgs=100000, SeqMod=1073741824, MaxSwitch=1000, MaxChunk=1000, Stricts="@{TRUE, FALSE}", Zlibs="@{TRUE, FALSE}")
+    tv_consts = dict(BASE, NMsgs=100000, SeqMod=1073741824, MaxSwitch=1000, MaxChunk=1000, Stricts="@{TRUE, FALSE}", Zlibs="@{TRUE, FALSE}",
+                     Modes=ALL_MODES)
     done = 0
     for lo in range(0, len(batch), 250):
         part = batch[lo:lo + 250]
-        res, _ = c.trace("PacketLayer_Trace", [{"strict": t["strict"], "zlib": t["zlib"], "ev": t["ev"]} for t in part],
+        res, _ = c.trace("PacketLayer_Trace", [{"strict": t["strict"], "zlib": t["zlib"], "mode0": t["mode0"], "ev": t["ev"]} for t in part],
                          cfg_text(spec="TSpec", constants=tv_consts, invariants=["Report"]))
         if {d[1] for d in res["DONE"]} != set(range(1, len(part) + 1)):
             raise Machinery("trace validation consumed %d of %d traces" % (len({d[1] for d in res["DONE"]}), len(part)))
@@ -295,13 +321,20 @@ def run(c):
         c.case(key=("tv", m["suite"], t["strict"], m["messages"], m["switches"], m["max_len"], m["recv_calls"]),
                sample={"stage": "trace", **m, "strict": t["strict"], "first_events": t["ev"][:6]} if m["switches"] >= 2 and m["messages"] > 20 else None)
     c.traces += done
+    n_exc_tv = sum(t["meta"]["need_rekey_exceptions"] for t in batch)
+    if (n_exc == 0 or n_exc_tv == 0) and not c.violations and not c.known_hits:
+        raise Machinery("need_rekey was raised but no read ever saw NeedRekeyException (%d / %d)" % (n_exc, n_exc_tv))
+    c.extra["need_rekey_exceptions_in_replays"] = n_exc
+    c.extra["need_rekey_exceptions_in_traces"] = n_exc_tv
     c.extra["suites"] = len(suites)
     c.extra["replayed_behaviours"] = nrp
     c.extra["messages_in_traces"] = sum(t["meta"]["messages"] for t in batch)
     c.rule = ("replay: TLC-simulated behaviours of PacketLayer_Gen (4 messages of length classes 1 / block-1 / block / block+1 / mid / "
-              "32-70 KB, <= 2 key switches, every fragment split of up to 6 cells, strict kex on/off) x all %d cipher x MAC x compression "
+              "32-70 KB, <= 2 key switches each to a framing mode TLC picks, need_rekey raised on the receiver at a point TLC picks, every "
+              "fragment split of up to 6 cells with a socket timeout between fragments, strict kex on/off) x all %d cipher x MAC x compression "
               "suites, %d per suite; traces: seeded streams of 1-200 messages with lengths 1..70000 biased to block boundaries, random "
-              "recv() sizes and socket timeouts, 0-3 key switches; distinct = distinct (suite, step sequence with concrete lengths) / "
+              "recv() sizes and socket timeouts, 0-3 key switches (40 %% to other algorithms), need_rekey raised on the receiver in half of them, "
+              "read through the loop of Transport.run (NeedRekeyException -> read again); distinct = distinct (suite, step sequence with concrete lengths) / "
               "(suite, strict, shape) tuples" % (len(suites), per_suite))
     c.assumptions = ["both ends are given the same (K, H, session id) by the harness, as a completed key exchange would",
                      "zlib@openssh.com is exercised in its post-authentication state",
